@@ -67,6 +67,7 @@ func init() {
 }
 
 func runC12(c *Ctx) {
+	onehopReversalRules(c, "V1-onehop-reversal")
 	v := c.View(procT + ".processOHP")
 	if v == nil {
 		return
